@@ -1,27 +1,72 @@
 (* C10 The static-route shortcut is unobservable. *)
-Require Import Base Regex Route Tree Router RouterProofs.
+Require Import Base Regex Route Tree Router RouterProofs RouterInv.
 
-(* on a miss of the shortcut table, serving IS tree matching *)
+(* FULL STATEMENT. For every router state reachable from the empty router by any history of
+   successful registrations and Headers() calls, every method, request path and header set:
+   serving through the shortcut table gives exactly what full tree matching gives - same route,
+   same (empty) parameters, same header gating.
+   [good] is a class of segment-element lists containing every registered segment, on which the
+   canonical text is injective and whose identifiers are non-empty and contain no "/" (what the
+   route parser produces; C06). *)
+Theorem C10_unobservable : forall compile (good : list elem -> Prop),
+  good [] ->
+  (forall a b, good a -> good b -> render_elems a = render_elems b -> a = b) ->
+  (forall es s, good es -> In (EIdent s) es -> s <> [] /\ slash_free s) ->
+  forall st m path hdrs, reachable compile good st -> serve st m path hdrs = serve_tree st m path hdrs.
+Proof. intros compile good G0 Inj Gi. exact (unobservable compile good G0 Inj Gi). Qed.
+
+(* the invariant it rests on, and its preservation *)
+Theorem C10_invariant : forall compile (good : list elem -> Prop),
+  good [] ->
+  (forall a b, good a -> good b -> render_elems a = render_elems b -> a = b) ->
+  (forall es s, good es -> In (EIdent s) es -> s <> [] /\ slash_free s) ->
+  forall st, reachable compile good st -> rinv compile good st.
+Proof. intros compile good G0 Inj Gi. exact (reachable_rinv compile good G0 Inj Gi). Qed.
+
+(* on a miss of the shortcut table, serving IS tree matching (no hypothesis at all) *)
 Theorem C10_miss_is_tree : forall st mi path hdrs,
   table_lookup st mi path = None -> serve st (Some mi) path hdrs = serve_tree st (Some mi) path hdrs.
 Proof. exact serve_miss_is_tree. Qed.
 
-(* invariant over every history of registrations and Headers() calls: each entry of the table belongs
-   to a registered, fully static route without optional segment and without header constraints,
-   keyed by its canonical text, for a method it was registered for *)
-Theorem C10_table_invariant_init : table_ok rinit.
-Proof. exact table_ok_init. Qed.
+(* each entry of the table belongs to a registered, fully static route without optional segment and
+   without header constraints, keyed by its canonical text, for a method it was registered for *)
 Theorem C10_table_invariant_register : forall compile st ms r st',
   table_ok st -> register compile st ms r = Some st' -> table_ok st'.
 Proof. exact table_ok_register. Qed.
 Theorem C10_table_invariant_headers : forall st rid h, table_ok st -> table_ok (set_headers st rid h).
 Proof. exact table_ok_set_headers. Qed.
 
-(* The full statement C10_unobservable - serve st m p h = serve_tree st m p h for every reachable
-   st - additionally needs "tree matching of a static route's own text returns that route", which
-   rests on the tree invariants of add_route and is NOT proved yet; the equality is evaluated on every
-   generated request (implementation's answer = model's serve_tree). *)
+(* non-vacuity: the hypotheses on [good] are satisfiable, and a reachable state exists in which the
+   shortcut actually answers *)
+Definition good0 (es : list elem) : Prop :=
+  es = [] \/ exists s, es = [EIdent s] /\ s <> [] /\ slash_free s.
+Example good0_ok :
+  good0 [] /\
+  (forall a b, good0 a -> good0 b -> render_elems a = render_elems b -> a = b) /\
+  (forall es s, good0 es -> In (EIdent s) es -> s <> [] /\ slash_free s).
+Proof.
+  split; [left; reflexivity|]. split.
+  - intros a b [->|(s & -> & Hs & _)] [->|(s' & -> & Hs' & _)]; cbn; rewrite ?app_nil_r; intros E; try congruence.
+  - intros es s [->|(s' & -> & Hs & F)] H; [destruct H|]. destruct H as [H|[]]. inversion H; subst. auto.
+Qed.
+Definition r_ab : route := [mkseg false [EIdent [97%N]]; mkseg false [EIdent [98%N]]].
+Example shortcut_hit : exists st,
+  reachable (fun _ => None) good0 st /\ table_lookup st 0 [47;97;47;98]%N = Some 0 /\
+  serve st (Some 0) [47;97;47;98]%N [] = Found 0 [].
+Proof.
+  destruct (register (fun _ => None) rinit [0] r_ab) as [st|] eqn:E; [|vm_compute in E; discriminate].
+  exists st. split.
+  - eapply reach_register; [apply reach_init | | exact E].
+    assert (G : forall c, good0 [EIdent [c]] \/ c = c_slash).
+    { intros c. destruct (N.eq_dec c c_slash) as [->|Ne]; [right; reflexivity|]. left. right. eexists.
+      split; [reflexivity|]. split; [discriminate|]. intros [X|[]]. congruence. }
+    constructor; [destruct (G 97%N) as [X|X]; [exact X | discriminate]|].
+    constructor; [destruct (G 98%N) as [X|X]; [exact X | discriminate]|]. constructor.
+  - vm_compute in E. inversion E. split; vm_compute; reflexivity.
+Qed.
 
-Redirect "assum/C10.1" Print Assumptions C10_miss_is_tree.
-Redirect "assum/C10.2" Print Assumptions C10_table_invariant_register.
-Redirect "assum/C10.3" Print Assumptions C10_table_invariant_headers.
+Redirect "assum/C10.1" Print Assumptions C10_unobservable.
+Redirect "assum/C10.2" Print Assumptions C10_invariant.
+Redirect "assum/C10.3" Print Assumptions C10_miss_is_tree.
+Redirect "assum/C10.4" Print Assumptions C10_table_invariant_register.
+Redirect "assum/C10.5" Print Assumptions C10_table_invariant_headers.
